@@ -60,6 +60,8 @@ def cases(tier, seed):
     for j, (rname, key, cls, rec) in enumerate(its):
         if (j + seed) % step == 0:
             out.append({"kind": "registry", "reg": rname, "key": key, "seed": seed, "nrot": 6 if tier == "quick" else 40})
+    if tier == "thorough":
+        out.append({"kind": "repo-tests"})
     return out
 
 
@@ -133,6 +135,10 @@ def _do_search(ctx, pattern, text, kind, pos=0, endpos=None, rx_cache={}):
 
 def execute(mat, ctx):
     kind = mat["kind"]
+    if kind == "repo-tests":
+        from . import _embedded
+        _embedded.run_repo_tests_under_monitors(ctx, ["search"], PROP)
+        return
     if kind == "letters":
         for code in sorted(IUPAC):
             for nuc in "ACGTacgt":
